@@ -116,6 +116,12 @@ def run_case(case):
             res["render_px"] = list(image._get_render_size())
         if src_pixels is not None:
             res["src"] = src_pixels
+        if style == "block" and alpha is None and img.mode in ("RGBA", "LA", "PA") and via == "renderer":
+            # "disabling transparency ignores alpha": the same image without its alpha channel
+            # must render identically (at any size: both go through the same RGB resampling)
+            image2 = cls(img.convert("RGB"), width=w, height=h)
+            out2 = image2._renderer(image2._render_image, None, **args)
+            res["noalpha_same"] = out2 == out
         return res
     except Exception as e:
         return {"error": f"{type(e).__name__}: {e}"}
